@@ -252,3 +252,1056 @@ Proof.
     + injection E as <- <-. destruct R as [G1 Hz]. split; [assumption|]. split; [lia|].
       intros _ i' j Hi' Hj. apply Hz; lia.
 Qed.
+
+(** * 4. tables: the split over 1..6 tables adds up to the single combination of the block rows *)
+Ltac Zify.zify_post_hook ::= Z.div_mod_to_equations.
+
+Lemma split_sizes_sum n kbar : 1 <= n <= 6 -> list_sum (split_sizes n kbar) = kbar.
+Proof.
+  intros Hn. unfold split_sizes.
+  assert (n = 1 \/ n = 2 \/ n = 3 \/ n = 4 \/ n = 5 \/ n = 6) as [->|[->|[->|[->|[->| ->]]]]] by lia;
+    cbn [seq map list_sum Nat.sub Nat.add];
+    repeat match goal with
+    | |- context [Nat.ltb ?a ?b] => destruct (Nat.ltb_spec a b); try lia
+    | |- context [Nat.leb ?a ?b] => destruct (Nat.leb_spec a b); try lia
+    end; cbn [andb list_sum fold_right]; lia.
+Qed.
+
+Lemma ntables_range k kbar : 0 < kbar -> 1 <= ntables k kbar <= 6.
+Proof.
+  intros H. unfold ntables.
+  repeat match goal with |- context [Nat.ltb ?a ?b] => destruct (Nat.ltb_spec a b) end; lia.
+Qed.
+
+Lemma testbit_tbl_sum M c sizes : forall r bits j, wf M -> r + list_sum sizes <= nr M ->
+  N.testbit (tbl_sum M r c sizes bits) (N.of_nat j) =
+  (c <=? j) && (j <? nc M) &&
+  xsum (list_sum sizes) (fun t => N.testbit bits (N.of_nat t) && get M (r + t) j).
+Proof.
+  induction sizes as [|ka rest IH]; intros r bits j HM Hr; cbn [tbl_sum].
+  - cbn [list_sum fold_right xsum]. rewrite N.bits_0. now rewrite andb_false_r.
+  - change (list_sum (ka :: rest)) with (ka + list_sum rest) in *.
+    rewrite N.lxor_spec, IH by (auto; lia). unfold tbl_entry, mt_mask.
+    rewrite N.land_spec, OpsProofs.testbit_colmask, testbit_mul_row.
+    rewrite block_rows_length by (rewrite (wf_len M HM); lia).
+    rewrite xsum_app.
+    set (b := (c <=? j) && (j <? nc M)).
+    replace (xsum ka (fun k => N.testbit (N.land bits (N.ones (N.of_nat ka))) (N.of_nat k) &&
+                               N.testbit (nth k (block_rows M r ka) 0%N) (N.of_nat j)))
+      with (xsum ka (fun t => N.testbit bits (N.of_nat t) && get M (r + t) j)).
+    2:{ apply xsum_ext. intros t Ht. rewrite N.land_spec, testbit_ones_nat, nth_block_rows by assumption.
+        destruct (Nat.ltb_spec t ka); [|lia]. now rewrite andb_true_r. }
+    replace (xsum (list_sum rest) (fun t => N.testbit (N.shiftr bits (N.of_nat ka)) (N.of_nat t) &&
+                                            get M (r + ka + t) j))
+      with (xsum (list_sum rest) (fun k => N.testbit bits (N.of_nat (ka + k)) && get M (r + (ka + k)) j)).
+    2:{ apply xsum_ext. intros t Ht. rewrite testbit_shiftr_nat.
+        now replace (t + ka) with (ka + t) by lia; replace (r + ka + t) with (r + (ka + t)) by lia. }
+    destruct b; [now rewrite !andb_true_l, andb_true_r|now rewrite andb_false_r].
+Qed.
+
+(** the "splitting lemma": whatever the split, the value added is the entry of ONE table over the
+    whole block of [list_sum sizes] rows *)
+Theorem tbl_sum_split M r c sizes bits : wf M -> r + list_sum sizes <= nr M ->
+  tbl_sum M r c sizes bits =
+  tbl_entry M r c (list_sum sizes) (N.land bits (N.ones (N.of_nat (list_sum sizes)))).
+Proof.
+  intros HM Hr. apply bits_ext_nat. intros j. rewrite testbit_tbl_sum by assumption.
+  pose proof (testbit_tbl_sum M c [list_sum sizes] r bits j HM) as H1.
+  change (list_sum [list_sum sizes]) with (list_sum sizes + 0) in H1. cbn [tbl_sum] in H1.
+  rewrite Nat.add_0_r, N.lxor_0_r in H1. now rewrite H1 by lia.
+Qed.
+
+(** bridge to the faithful table model Gray.make_table: the entry found through L in a freshly
+    made table has the modelled value on the columns [c, ncols), for every stale previous content *)
+Theorem tbl_entry_is_table_lookup k M r c T0 L0 x :
+  r + k <= nr M -> 2 ^ k <= length T0 -> 2 ^ k <= length L0 ->
+  N.land (nth 0 T0 0%N) (mt_mask M c) = 0%N -> (x < 2 ^ N.of_nat k)%N ->
+  N.land (tlookup (make_table M r c k T0 L0) x) (mt_mask M c) = tbl_entry M r c k x.
+Proof. intros. unfold tbl_entry. now apply gray_lookup_masked_lib. Qed.
+
+Lemma tables_char k M r c kbar bits j : wf M -> 0 < kbar -> r + kbar <= nr M ->
+  N.testbit (tables k M r c kbar bits) (N.of_nat j) =
+  (c <=? j) && (j <? nc M) && xsum kbar (fun t => N.testbit bits (N.of_nat t) && get M (r + t) j).
+Proof.
+  intros HM Hk Hr. unfold tables.
+  pose proof (split_sizes_sum (ntables k kbar) kbar (ntables_range k kbar Hk)) as Hs.
+  rewrite testbit_tbl_sum by (auto; lia). now rewrite Hs.
+Qed.
+
+Lemma tables_bounded k M r c kbar bits : wf M -> 0 < kbar -> r + kbar <= nr M ->
+  bounded (nc M) (tables k M r c kbar bits).
+Proof.
+  intros HM Hk Hr j Hj. rewrite tables_char by assumption.
+  destruct (Nat.ltb_spec j (nc M)); [lia|]. now rewrite andb_false_r.
+Qed.
+
+(** the value added by a table is a combination of the block rows (of any matrix sharing them) *)
+Lemma tbl_sum_in_rowspace M0 Mx r c kbar : wf M0 -> zero_below M0 r c ->
+  (forall i, r <= i < r + kbar -> row Mx i = row M0 i) ->
+  forall sizes r' bits, r <= r' -> r' + list_sum sizes <= r + kbar ->
+  in_rowspace (tbl_sum M0 r' c sizes bits) Mx.
+Proof.
+  intros HM Hzb Hsame. induction sizes as [|ka rest IH]; intros r' bits Hr Hs; cbn [tbl_sum].
+  - apply in_rowspace_0.
+  - change (list_sum (ka :: rest)) with (ka + list_sum rest) in Hs.
+    apply in_rowspace_lxor; [|apply IH; lia].
+    unfold tbl_entry, mt_mask.
+    set (x := N.land bits (N.ones (N.of_nat ka))).
+    assert (Hin : forall v, In v (block_rows M0 r' ka) -> exists b, b < ka /\ v = row M0 (r' + b)).
+    { intros v Hv. destruct (In_nth _ _ 0%N Hv) as [b [Hb <-]].
+      assert (Hb' : b < ka). { unfold block_rows in Hb. rewrite firstn_length in Hb. lia. }
+      exists b. split; [assumption|]. now apply nth_block_rows. }
+    rewrite land_colmask_id.
+    + apply in_rowspace_mul_row. intros v Hv. destruct (Hin v Hv) as [b [Hb ->]].
+      rewrite <- Hsame by lia. apply in_rowspace_row.
+    + apply bounded_mul_row. now apply block_rows_bounded.
+    + apply (mul_row_closed (fun v => forall j, j < c -> N.testbit v (N.of_nat j) = false)).
+      * intros j _. apply N.bits_0.
+      * intros a b Ha Hb j Hj. now rewrite N.lxor_spec, Ha, Hb.
+      * intros v Hv j Hj. destruct (Hin v Hv) as [b [Hb ->]]. apply Hzb; [lia|assumption].
+Qed.
+
+Lemma row_equiv_add_vectors M M' (b : nat -> bool) :
+  length (rows M') = length (rows M) -> nr M = nr M' -> nc M = nc M' ->
+  (forall i, b i = false -> row M' i = row M i) ->
+  (forall i, b i = true -> exists v, row M' i = N.lxor (row M i) v /\ in_rowspace v M /\ in_rowspace v M') ->
+  row_equiv M M'.
+Proof.
+  intros Hl Hnr Hnc Hf Ht. split; [assumption|]. split; [assumption|]. split.
+  - apply rs_incl_rows. intros i _. destruct (b i) eqn:E.
+    + destruct (Ht i E) as (v & Ev & _ & Hv). replace (row M i) with (N.lxor (row M' i) v).
+      * apply in_rowspace_lxor; [apply in_rowspace_row|assumption].
+      * rewrite Ev. apply lxor_cancel_r.
+    + rewrite <- (Hf i E). apply in_rowspace_row.
+  - apply rs_incl_rows. intros i _. destruct (b i) eqn:E.
+    + destruct (Ht i E) as (v & -> & Hv & _). apply in_rowspace_lxor; [apply in_rowspace_row|assumption].
+    + rewrite (Hf i E). apply in_rowspace_row.
+Qed.
+
+(** mzd_process_rowsN with the tables made from M0, whose block rows r..r+kbar-1 (zero before
+    column c) are also the rows of the processed matrix M; the processed range avoids the block *)
+Lemma process_rows_spec k M0 M r c kbar lo hi : wf M0 -> wf M -> nr M = nr M0 -> nc M = nc M0 ->
+  0 < kbar -> r + kbar <= nr M0 -> zero_below M0 r c ->
+  (forall i j, r <= i < r + kbar -> get M i j = get M0 i j) ->
+  (hi <= r \/ r + kbar <= lo) ->
+  let M' := process_rows M (tables k M0 r c kbar) lo hi c kbar in
+  wf M' /\ nr M' = nr M /\ nc M' = nc M /\ row_equiv M M' /\
+  forall i j, get M' i j =
+    xorb (get M i j) ((lo <=? i) && (i <? hi) && xsum kbar (fun t => get M i (c + t) && get M0 (r + t) j)).
+Proof.
+  intros HM0 HM Hnr Hnc Hk Hr Hzb Hsame Hdisj M'.
+  assert (Hrow : forall i, row M' i =
+            if (i <? length (rows M)) && ((lo <=? i) && (i <? hi))
+            then N.lxor (row M i) (tables k M0 r c kbar
+                                     (N.land (N.shiftr (row M i) (N.of_nat c)) (N.ones (N.of_nat kbar))))
+            else row M i).
+  { intros i. unfold M', process_rows. rewrite row_map_rows.
+    destruct (Nat.ltb_spec i (length (rows M))); cbn [andb]; [reflexivity|].
+    now rewrite Span.row_overflow. }
+  assert (Hsame_row : forall i, r <= i < r + kbar -> row M i = row M0 i).
+  { intros i Hi. apply (row_ext (nc M)); [now apply wf_row_bounded|rewrite Hnc; now apply wf_row_bounded|].
+    intros j _. now apply Hsame. }
+  assert (HM' : wf M').
+  { unfold M', process_rows. apply wf_map_rows; [assumption|]. intros i x Hx. cbn [nc].
+    destruct ((lo <=? i) && (i <? hi)); [|assumption]. apply bounded_lxor; [assumption|].
+    rewrite Hnc. apply tables_bounded; auto. }
+  split; [exact HM'|]. split; [reflexivity|]. split; [reflexivity|]. split.
+  - apply (row_equiv_add_vectors M M' (fun i => (i <? length (rows M)) && ((lo <=? i) && (i <? hi)))).
+    + unfold M', process_rows. apply rows_map_rows_length.
+    + reflexivity.
+    + reflexivity.
+    + intros i E. rewrite Hrow. cbv beta in E. now rewrite E.
+    + intros i E. cbv beta in E. eexists. split; [rewrite Hrow, E; reflexivity|].
+      unfold tables. split.
+      * apply (tbl_sum_in_rowspace M0 M r c kbar HM0 Hzb Hsame_row); [lia|].
+        rewrite split_sizes_sum by now apply ntables_range. lia.
+      * assert (Hsame' : forall i', r <= i' < r + kbar -> row M' i' = row M0 i').
+        { intros i' Hi'. rewrite Hrow.
+          destruct (Nat.leb_spec lo i'), (Nat.ltb_spec i' hi); cbn [andb]; try (rewrite andb_false_r);
+            try now apply Hsame_row. lia. }
+        apply (tbl_sum_in_rowspace M0 M' r c kbar HM0 Hzb Hsame'); [lia|].
+        rewrite split_sizes_sum by now apply ntables_range. lia.
+  - intros i j. unfold get at 1. rewrite Hrow.
+    destruct (Nat.ltb_spec i (length (rows M))) as [Hi|Hi]; cbn [andb].
+    + destruct ((lo <=? i) && (i <? hi)); cbn [andb]; [|now rewrite xorb_false_r].
+      rewrite N.lxor_spec. fold (get M i j). f_equal. rewrite tables_char by auto.
+      destruct (Nat.ltb_spec j (nc M0)) as [Hj|Hj].
+      * destruct (Nat.leb_spec c j) as [Hc|Hc]; cbn [andb].
+        -- apply xsum_ext. intros t Ht. rewrite N.land_spec, testbit_ones_nat, testbit_shiftr_nat.
+           destruct (Nat.ltb_spec t kbar); [|lia]. rewrite andb_true_r. unfold get.
+           now replace (t + c) with (c + t) by lia.
+        -- symmetry. apply xsum_zero. intros t Ht. rewrite Hzb by lia. apply andb_false_r.
+      * rewrite andb_false_r. cbn [andb]. symmetry. apply xsum_zero. intros t Ht.
+        rewrite (get_out_col M0) by assumption. apply andb_false_r.
+    + rewrite (Span.row_overflow M i Hi), N.bits_0. unfold get. rewrite (Span.row_overflow M i Hi), N.bits_0.
+      symmetry. rewrite xorb_false_l. replace (xsum kbar _) with false; [now rewrite andb_false_r|].
+      symmetry. apply xsum_zero. intros t Ht. now rewrite N.bits_0.
+Qed.
+
+(** * 5. one block iteration re-establishes the loop invariant [ginv] of Alg/GaussProofs.v
+    (rows < r = length piv in (reduced) echelon form with pivots < c, rows >= r zero before c,
+    row space of A) at the new cursor *)
+Lemma sorted_app_seq piv c k : StronglySorted lt piv -> (forall j, In j piv -> j < c) ->
+  StronglySorted lt (piv ++ seq c k) /\ forall j, In j (piv ++ seq c k) -> j < c + k.
+Proof.
+  intros Hs Hlt. induction k as [|k [IH1 IH2]].
+  - cbn [seq]. rewrite app_nil_r, Nat.add_0_r. now split.
+  - rewrite seq_S, app_assoc. split.
+    + now apply sorted_app_single.
+    + intros j Hj. apply in_app_or in Hj as [Hj|[<-|[]]]; [specialize (IH2 j Hj)|]; lia.
+Qed.
+
+Lemma nth_app_seq piv c k i : i < length piv + k ->
+  nth i (piv ++ seq c k) 0 = if i <? length piv then nth i piv 0 else c + (i - length piv).
+Proof.
+  intros Hi. destruct (Nat.ltb_spec i (length piv)).
+  - now apply app_nth1.
+  - rewrite app_nth2 by assumption. apply seq_nth. lia.
+Qed.
+
+Lemma ginv_after_block full A c M piv M3 kbar c' : ginv full A c M piv ->
+  wf M3 -> nr M3 = nr M -> nc M3 = nc M -> row_equiv M M3 -> length piv + kbar <= nr M ->
+  (forall i j, i < length piv -> j < c -> get M3 i j = get M i j) ->
+  zero_below M3 (length piv) c ->
+  (forall t, t < kbar -> get M3 (length piv + t) (c + t) = true) ->
+  (forall t u, u < t -> t < kbar -> get M3 (length piv + t) (c + u) = false) ->
+  (full = true -> forall t u, t < u -> u < kbar -> get M3 (length piv + t) (c + u) = false) ->
+  (full = true -> forall i u, i < length piv -> u < kbar -> get M3 i (c + u) = false) ->
+  c + kbar <= c' ->
+  (forall i j, length piv + kbar <= i -> c <= j < c' -> get M3 i j = false) ->
+  ginv full A c' M3 (piv ++ seq c kbar).
+Proof.
+  intros [Hwf Heq Hlen Hs Hlt Hlead Hzero Hfull] HM3 Hnr Hnc Heq3 Hrk Hold Hzb Hdiag Hlow Hup Habove Hc' Hbelow.
+  set (r := length piv) in *.
+  destruct (sorted_app_seq piv c kbar Hs Hlt) as [Hs' Hlt'].
+  assert (Hlen' : length (piv ++ seq c kbar) = r + kbar) by (rewrite app_length, seq_length; reflexivity).
+  constructor.
+  - exact HM3.
+  - now apply (row_equiv_trans A M).
+  - rewrite Hlen'. lia.
+  - exact Hs'.
+  - intros j Hj. specialize (Hlt' j Hj). lia.
+  - rewrite Hlen'. intros i Hi. rewrite nth_app_seq by (fold r; lia). fold r.
+    destruct (Nat.ltb_spec i r) as [Hir|Hir].
+    + pose proof (Hlead i Hir) as Hl. apply lead_Some in Hl as [Hl1 Hl2].
+      assert (Hp : nth i piv 0 < c) by (apply Hlt, nth_In; exact Hir).
+      apply lead_Some. split.
+      * change (get M3 i (nth i piv 0) = true). rewrite Hold by assumption. exact Hl1.
+      * intros j' Hj'. change (get M3 i j' = false). rewrite Hold by (auto; lia). now apply Hl2.
+    + replace i with (r + (i - r)) at 1 by lia. apply lead_Some. split.
+      * apply Hdiag. lia.
+      * intros j' Hj'. change (get M3 (r + (i - r)) j' = false).
+        destruct (Nat.lt_ge_cases j' c) as [Hjc|Hjc]; [apply Hzb; lia|].
+        replace j' with (c + (j' - c)) by lia. apply Hlow; lia.
+  - rewrite Hlen'. intros i j Hi Hj. destruct (Nat.lt_ge_cases j c) as [Hjc|Hjc].
+    + apply Hzb; [lia|assumption].
+    + apply Hbelow; lia.
+  - rewrite Hlen'. intros Hf i i' Hi Hne. rewrite nth_app_seq by (fold r; lia). fold r.
+    destruct (Nat.ltb_spec i r) as [Hir|Hir].
+    + assert (Hp : nth i piv 0 < c) by (apply Hlt, nth_In; exact Hir).
+      destruct (Nat.lt_ge_cases i' r) as [Hi'|Hi'].
+      * rewrite Hold by assumption. now apply (Hfull Hf).
+      * now apply Hzb.
+    + destruct (Nat.lt_ge_cases i' r) as [Hi'|Hi'].
+      * apply (Habove Hf); [assumption|lia].
+      * destruct (Nat.lt_ge_cases i' (r + kbar)) as [Hi2|Hi2].
+        -- replace i' with (r + (i' - r)) by lia.
+           destruct (Nat.lt_ge_cases (i' - r) (i - r)) as [Hlt2|Hge2].
+           ++ apply (Hup Hf); lia.
+           ++ apply Hlow; lia.
+        -- apply Hbelow; lia.
+Qed.
+
+Lemma gs_top_row M0 M r c l i : wf M0 -> gs M0 M r c l -> i < r -> row M i = row M0 i.
+Proof.
+  intros HM0 G Hi. apply (row_ext (nc M)).
+  - apply wf_row_bounded, (gs_wf _ _ _ _ _ G).
+  - rewrite (gs_nc _ _ _ _ _ G). now apply wf_row_bounded.
+  - intros j _. now apply (gs_top _ _ _ _ _ G).
+Qed.
+
+Lemma xsum_blk_id M r c l (f : nat -> bool) u : blk_id M r c l -> u < l ->
+  xsum l (fun t => f t && get M (r + t) (c + u)) = f u.
+Proof.
+  intros Hb Hu. rewrite (xsum_single _ _ u Hu).
+  - rewrite Hb by assumption. rewrite Nat.eqb_refl. apply andb_true_r.
+  - intros t Ht Hne. rewrite Hb by assumption. destruct (Nat.eqb_spec t u); [contradiction|apply andb_false_r].
+Qed.
+
+Theorem block_full_spec A k piv c M kk : ginv true A c M piv -> 1 <= kk -> c + kk <= nc M ->
+  forall M3 kbar, block_step k true M (length piv) c kk = (M3, kbar) ->
+  kbar <= kk /\
+  ginv true A (if kbar =? kk then c + kbar else S (c + kbar)) M3 (piv ++ seq c kbar).
+Proof.
+  intros Hg Hkk Hc M3 kbar E. set (r := length piv) in *.
+  pose proof (gi_wf _ _ _ _ _ Hg) as HM. pose proof (gi_len _ _ _ _ _ Hg) as Hlen. fold r in Hlen.
+  assert (Hzb : zero_below M r c) by (intros i j Hi Hj; now apply (gi_zero _ _ _ _ _ Hg)).
+  unfold block_step in E. unfold gauss_submatrix_full in E.
+  destruct (gsf_cols kk M r c (nr M) 0) as [M1 kb] eqn:Eg.
+  destruct (gsf_cols_spec M r c (nr M) kk M 0 (gs_init M r c HM Hlen Hzb) (Nat.le_refl _) M1 kb Eg)
+    as (G1 & Hkb & Hnf). cbn [Nat.add] in Hkb, Hnf.
+  pose proof (gs_wf _ _ _ _ _ G1) as HM1. pose proof (gs_nr _ _ _ _ _ G1) as Hnr1.
+  pose proof (gs_nc _ _ _ _ _ G1) as Hnc1. pose proof (gs_len _ _ _ _ _ G1) as Hlen1.
+  pose proof (gs_zb _ _ _ _ _ G1) as Hzb1. pose proof (gs_blk _ _ _ _ _ G1) as Hblk1.
+  (* rows at and below r + kb vanish on the block columns when the block was cut short *)
+  assert (Hshort : kb < kk -> forall i j, r + kb <= i -> c <= j < S (c + kb) -> get M1 i j = false).
+  { intros Hlt i j Hi Hj. destruct (Nat.lt_ge_cases i (nr M)) as [Hin|Hin].
+    - apply Hnf; lia.
+    - apply get_out_row; [assumption|lia]. }
+  destruct (Nat.ltb_spec 0 kb) as [Hpos|Hzero].
+  - (* tables *)
+    set (T := tables k M1 r c kb) in *.
+    set (M2 := if kb =? kk then process_rows M1 T (r + kb) (nr M) c kb else M1) in *.
+    injection E as <- <-. split; [lia|].
+    assert (H2 : wf M2 /\ nr M2 = nr M1 /\ nc M2 = nc M1 /\ row_equiv M1 M2 /\
+                 (forall i j, i < r + kb -> get M2 i j = get M1 i j) /\
+                 (forall i j, r + kb <= i -> get M2 i j =
+                    if kb =? kk then xorb (get M1 i j) (xsum kb (fun t => get M1 i (c + t) && get M1 (r + t) j))
+                    else get M1 i j)).
+    { unfold M2. destruct (Nat.eqb_spec kb kk) as [Ek|Ek].
+      - destruct (process_rows_spec k M1 M1 r c kb (r + kb) (nr M) HM1 HM1 eq_refl eq_refl Hpos
+                    ltac:(lia) Hzb1 ltac:(reflexivity) ltac:(right; lia)) as (W1 & W2 & W3 & W4 & W5).
+        fold T in W1, W2, W3, W4, W5. splits; auto.
+        + intros i j Hi. rewrite W5. destruct (Nat.leb_spec (r + kb) i); [lia|]. cbn [andb]. apply xorb_false_r.
+        + intros i j Hi. rewrite W5. destruct (Nat.leb_spec (r + kb) i); [|lia].
+          destruct (Nat.ltb_spec i (nr M)); cbn [andb]; [reflexivity|].
+          rewrite (get_out_row M1 i j) by (auto; lia). rewrite !xorb_false_l. symmetry. apply xsum_zero.
+          intros t Ht. rewrite (get_out_row M1 i) by (auto; lia). reflexivity.
+      - splits; auto. apply row_equiv_refl. }
+    destruct H2 as (HM2 & Hnr2 & Hnc2 & Heq2 & Hkeep2 & Hbel2).
+    destruct (process_rows_spec k M1 M2 r c kb 0 r HM1 HM2 Hnr2 Hnc2 Hpos ltac:(lia) Hzb1
+                ltac:(intros i j Hi; apply Hkeep2; lia) ltac:(left; lia)) as (HM3 & Hnr3 & Hnc3 & Heq3 & Hg3).
+    fold T in HM3, Hnr3, Hnc3, Heq3, Hg3.
+    set (M3 := process_rows M2 T 0 r c kb) in *.
+    assert (Hlow3 : forall i j, r <= i -> get M3 i j = get M2 i j).
+    { intros i j Hi. rewrite Hg3. destruct (Nat.ltb_spec i r); [lia|]. rewrite andb_false_r. apply xorb_false_r. }
+    apply (ginv_after_block true A c M piv M3 kb); fold r; auto; try lia; try congruence.
+    + apply (row_equiv_trans M M1); [apply (gs_eq _ _ _ _ _ G1)|].
+      apply (row_equiv_trans M1 M2); assumption.
+    + intros i j Hi Hj. rewrite Hg3. replace (xsum kb _) with false.
+      * rewrite andb_false_r, xorb_false_r, Hkeep2 by lia. now apply (gs_top _ _ _ _ _ G1).
+      * symmetry. apply xsum_zero. intros t Ht. rewrite (Hzb1 (r + t) j) by lia. apply andb_false_r.
+    + intros i j Hi Hj. rewrite Hlow3 by assumption.
+      destruct (Nat.lt_ge_cases i (r + kb)) as [Hi2|Hi2].
+      * rewrite Hkeep2 by assumption. now apply Hzb1.
+      * rewrite Hbel2 by assumption. destruct (kb =? kk); [|now apply Hzb1].
+        rewrite (Hzb1 i j) by (auto; lia). rewrite xorb_false_l. apply xsum_zero. intros t Ht.
+        rewrite (Hzb1 (r + t) j) by lia. apply andb_false_r.
+    + intros t Ht. rewrite Hlow3, Hkeep2 by lia. rewrite Hblk1 by assumption. apply Nat.eqb_refl.
+    + intros t u Hu Ht. rewrite Hlow3, Hkeep2 by lia. rewrite Hblk1 by lia.
+      destruct (Nat.eqb_spec t u); [lia|reflexivity].
+    + intros _ t u Hu Ht. rewrite Hlow3, Hkeep2 by lia. rewrite Hblk1 by lia.
+      destruct (Nat.eqb_spec t u); [lia|reflexivity].
+    + intros _ i u Hi Hu. rewrite Hg3. destruct (Nat.ltb_spec i r); [|lia]. cbn [andb].
+      rewrite (xsum_blk_id M1 r c kb (fun t => get M2 i (c + t)) u Hblk1 Hu). apply xorb_nilpotent.
+    + destruct (kb =? kk); lia.
+    + intros i j Hi Hj. rewrite Hlow3 by lia. rewrite Hbel2 by assumption.
+      destruct (Nat.eqb_spec kb kk) as [Ek|Ek].
+      * replace j with (c + (j - c)) by lia.
+        rewrite (xsum_blk_id M1 r c kb (fun t => get M1 i (c + t)) (j - c) Hblk1 ltac:(lia)).
+        apply xorb_nilpotent.
+      * apply Hshort; lia.
+  - (* kbar = 0: column c has no pivot *)
+    assert (kb = 0) by lia. subst kb. injection E as <- <-. split; [lia|].
+    destruct (Nat.eqb_spec 0 kk); [lia|]. rewrite Nat.add_0_r in *.
+    apply (ginv_after_block true A c M piv M1 0); fold r; auto; try lia; try congruence.
+    + apply (gs_eq _ _ _ _ _ G1).
+    + intros i j Hi Hj. now apply (gs_top _ _ _ _ _ G1).
+    + intros i j Hi Hj. apply Hshort; lia.
+Qed.
+
+(** * 6. the cursor update: mzd_find_pivot + row swap (brilliantrussian.c:808-823) *)
+Lemma ginv_advance full A c c' M piv : ginv full A c M piv -> c <= c' ->
+  (forall i j, length piv <= i -> c <= j < c' -> get M i j = false) -> ginv full A c' M piv.
+Proof.
+  intros [Hwf Heq Hlen Hs Hlt Hlead Hzero Hfull] Hc Hz. constructor; auto.
+  - intros j Hj. specialize (Hlt j Hj). lia.
+  - intros i j Hi Hj. destruct (Nat.lt_ge_cases j c); [now apply Hzero|apply Hz; lia].
+Qed.
+
+Lemma ginv_find_pivot_some full A c c0 M piv rbar cbar : ginv full A c M piv -> c0 <= c ->
+  find_pivot M (length piv) c0 = Some (rbar, cbar) ->
+  ginv full A cbar (row_swap M (length piv) rbar) piv /\ c <= cbar < nc M /\
+  get (row_swap M (length piv) rbar) (length piv) cbar = true.
+Proof.
+  intros Hg Hc0 E. pose proof (gi_wf _ _ _ _ _ Hg) as HM.
+  destruct (find_pivot_spec M (length piv) c0 HM) as [_ HS].
+  destruct (HS rbar cbar E) as (G1 & G2 & G3 & G4 & G5).
+  assert (Hcc : c <= cbar).
+  { destruct (Nat.le_gt_cases c cbar); [assumption|].
+    rewrite (gi_zero _ _ _ _ _ Hg) in G1 by lia. discriminate. }
+  assert (Hg' : ginv full A cbar M piv).
+  { apply (ginv_advance full A c); auto. intros i j Hi Hj. apply G4; lia. }
+  destruct (ginv_swap full A cbar M piv rbar Hg' ltac:(lia) G1) as [H1 H2].
+  split; [assumption|]. split; [lia|assumption].
+Qed.
+
+Lemma ginv_find_pivot_none full A c c0 M piv : ginv full A c M piv -> c0 <= c -> c <= nc M ->
+  find_pivot M (length piv) c0 = None -> ginv full A (nc A) M piv.
+Proof.
+  intros Hg Hc0 Hc E. pose proof (gi_wf _ _ _ _ _ Hg) as HM.
+  destruct (find_pivot_spec M (length piv) c0 HM) as [[HN _] _].
+  destruct (gi_equiv _ _ _ _ _ Hg) as (_ & Hnc & _). rewrite Hnc.
+  apply (ginv_advance full A c); auto. intros i j Hi Hj. apply (HN E); lia.
+Qed.
+
+Lemma gauss_true_pair A : gauss_delayed true 0 A = (rank A, rref A).
+Proof. unfold rank, rref, echelonize. apply surjective_pairing. Qed.
+
+Lemma ginv_result_full A M piv : wf A -> ginv true A (nc A) M piv ->
+  (length piv, M) = gauss_delayed true 0 A.
+Proof.
+  intros HA Hg. destruct (ginv_final true A M piv Hg) as (HM & Heq & Hrr).
+  destruct (rref_canonical A M piv HA HM Hrr Heq) as [-> ->]. symmetry. apply gauss_true_pair.
+Qed.
+
+(** * 7. the main loop, reduced mode, any switching oracle *)
+Definition full_ok (A M : mat) (piv : list nat) : Prop := wf M /\ row_equiv A M /\ is_rref M piv.
+
+Lemma ginv_full_ok A M piv : ginv true A (nc A) M piv -> full_ok A M piv.
+Proof. intros Hg. exact (ginv_final true A M piv Hg). Qed.
+
+Lemma full_ok_result A M piv : wf A -> full_ok A M piv -> (length piv, M) = gauss_delayed true 0 A.
+Proof.
+  intros HA (HM & Heq & Hrr).
+  destruct (rref_canonical A M piv HA HM Hrr Heq) as [-> ->]. symmetry. apply gauss_true_pair.
+Qed.
+
+Section MainFull.
+  Variable ech : bool -> mat -> nat * mat.
+  Variables k ktop : nat.
+  Variable oracle : nat -> bool.
+  Variable A : mat.
+  Hypothesis Hk : 1 <= k.
+  (** what the hand-over to PLUQ (+ top reduction) achieves; discharged in section 9 *)
+  Hypothesis switch_ok : forall it c M piv, oracle it = true ->
+    ginv true A c M piv -> c < nc M -> length piv < nr M ->
+    exists M' piv', switch ech ktop true M (length piv) c = Some (length piv', M') /\ full_ok A M' piv'.
+
+  Lemma m4ri_loop_full fuel : forall it c M piv, ginv true A c M piv -> c <= nc M -> nc M - c <= fuel ->
+    exists M' piv', m4ri_loop ech k ktop oracle fuel it true M (length piv) c = Some (length piv', M') /\
+                    full_ok A M' piv'.
+  Proof.
+    induction fuel as [|fuel IH]; intros it c M piv Hg Hc Hf.
+    - assert (c = nc M) by lia. subst c. cbn [m4ri_loop]. rewrite Nat.leb_refl.
+      exists M, piv. split; [reflexivity|]. apply ginv_full_ok.
+      destruct (gi_equiv _ _ _ _ _ Hg) as (_ & Hnc & _). now rewrite Hnc.
+    - cbn [m4ri_loop]. destruct (Nat.leb_spec (nc M) c) as [Hge|Hlt].
+      + assert (c = nc M) by lia. subst c. exists M, piv. split; [reflexivity|]. apply ginv_full_ok.
+        destruct (gi_equiv _ _ _ _ _ Hg) as (_ & Hnc & _). now rewrite Hnc.
+      + destruct (oracle it && (length piv <? nr M)) eqn:Eo.
+        * apply andb_true_iff in Eo as [Eo1 Eo]. apply Nat.ltb_lt in Eo. now apply (switch_ok it).
+        * set (kk := Nat.min (6 * k) (nc M - c)).
+          destruct (block_step k true M (length piv) c kk) as [M1 kbar] eqn:Eb.
+          destruct (block_full_spec A k piv c M kk Hg ltac:(lia) ltac:(lia) M1 kbar Eb) as [Hkb Hg1].
+          assert (Hlen1 : length (piv ++ seq c kbar) = length piv + kbar)
+            by (rewrite app_length, seq_length; reflexivity).
+          assert (Hnc1 : nc M1 = nc M).
+          { destruct (gi_equiv _ _ _ _ _ Hg1) as (_ & E1 & _).
+            destruct (gi_equiv _ _ _ _ _ Hg) as (_ & E2 & _). congruence. }
+          rewrite <- Hlen1.
+          destruct (Nat.eqb_spec kbar kk) as [Ek|Ek].
+          -- apply IH; [assumption|lia|lia].
+          -- destruct (find_pivot M1 (length (piv ++ seq c kbar)) (c + kbar)) as [[rbar cbar]|] eqn:Ef.
+             ++ destruct (ginv_find_pivot_some true A _ (c + kbar) M1 _ rbar cbar Hg1 ltac:(lia) Ef)
+                  as (Hg2 & Hcb & _).
+                apply IH; [assumption|cbn [nc row_swap set_row]; lia|cbn [nc row_swap set_row]; lia].
+             ++ exists M1, (piv ++ seq c kbar). split; [reflexivity|]. apply ginv_full_ok.
+                apply (ginv_find_pivot_none true A _ (c + kbar) M1 _ Hg1); [lia|lia|assumption].
+  Qed.
+End MainFull.
+
+(** mzd_echelonize_m4ri(A, 1, k): heuristic off *)
+Theorem m4ri_run_full_spec k A : 1 <= k -> wf A -> m4ri_run k true A = Some (gauss_delayed true 0 A).
+Proof.
+  intros Hk HA. unfold m4ri_run, m4ri_model. cbn [andb].
+  destruct (m4ri_loop_full (fun _ W => (0, W)) k k (fun _ => false) A Hk
+              ltac:(intros it c M piv Ho; discriminate) (nc A) 1 0 A [] (ginv_init true A HA)
+              ltac:(lia) ltac:(lia)) as (M' & piv' & E & Hg).
+  cbn [length] in E. rewrite E. f_equal. now apply full_ok_result.
+Qed.
+
+(** * 8. _mzd_top_echelonize_m4ri on a matrix whose rows >= r are in row echelon form *)
+Lemma gsf_scan_zero n : forall M r c l i,
+  (forall i', i <= i' < i + n -> read_bits M i' c (S l) = 0%N) -> gsf_scan n M r c l i = (M, false).
+Proof.
+  induction n as [|n IH]; intros M r c l i H; cbn [gsf_scan]; [reflexivity|].
+  rewrite (H i) by lia. cbn [N.eqb]. apply IH. intros i' Hi'. apply H. lia.
+Qed.
+
+Lemma fold_left_noop {X} (f : X -> nat -> X) l x : (forall y t, In t l -> f y t = y) -> fold_left f l x = x.
+Proof.
+  revert x. induction l as [|t l IH]; intros x H; cbn [fold_left]; [reflexivity|].
+  rewrite H by now left. apply IH. intros y t' Ht'. apply H. now right.
+Qed.
+
+Lemma clear_tmp_noop M i r c l tmp : (forall t, t < l -> N.testbit tmp (N.of_nat t) = false) ->
+  clear_tmp M i r c l tmp = M.
+Proof.
+  intros H. unfold clear_tmp. apply fold_left_noop. intros y t Ht. apply in_seq in Ht. now rewrite H by lia.
+Qed.
+
+Lemma read_bits_zero M i c n : (forall u, u < n -> get M i (c + u) = false) -> read_bits M i c n = 0%N.
+Proof.
+  intros H. apply bits_ext_nat. intros t. rewrite testbit_read_bits, N.bits_0.
+  destruct (Nat.ltb_spec t n); [now rewrite H|reflexivity].
+Qed.
+
+Lemma gsf_scan_top M r c l n : wf M -> r + l + n <= nr M ->
+  (forall i u, r + l <= i -> u < l -> get M i (c + u) = false) ->
+  (forall i, r + l < i -> get M i (c + l) = false) ->
+  gsf_scan n M r c l (r + l) =
+  if (0 <? n) && get M (r + l) (c + l) then (clear_above M r (r + l) (c + l), true) else (M, false).
+Proof.
+  intros HM Hn Hz Hcol. destruct n as [|n]; [reflexivity|].
+  destruct (Nat.ltb_spec 0 (S n)); [|lia]. cbn [andb gsf_scan].
+  destruct (get M (r + l) (c + l)) eqn:Ep.
+  - assert (Hb : N.testbit (read_bits M (r + l) c (S l)) (N.of_nat l) = true).
+    { rewrite testbit_read_bits. destruct (Nat.ltb_spec l (S l)); [exact Ep|lia]. }
+    destruct (N.eqb_spec (read_bits M (r + l) c (S l)) 0) as [E0|E0].
+    { rewrite E0, N.bits_0 in Hb. discriminate. }
+    rewrite clear_tmp_noop.
+    + rewrite Ep. now rewrite row_swap_same.
+    + intros t Ht. rewrite testbit_read_bits. rewrite Hz by lia. apply andb_false_r.
+  - assert (E0 : read_bits M (r + l) c (S l) = 0%N).
+    { apply read_bits_zero. intros u Hu. destruct (Nat.eq_dec u l) as [->|Hne]; [exact Ep|apply Hz; lia]. }
+    rewrite E0. cbn [N.eqb]. apply gsf_scan_zero. intros i' Hi'. apply read_bits_zero.
+    intros u Hu. destruct (Nat.eq_dec u l) as [->|Hne]; [apply Hcol; lia|apply Hz; lia].
+Qed.
+
+(** clearing above a pivot of a row echelon form keeps it a row echelon form on the same pivots *)
+Lemma clear_above_ref M piv r s : wf M -> is_ref M piv -> r <= s -> s < length piv ->
+  let j := nth s piv 0 in let M' := clear_above M r s j in
+  wf M' /\ nr M' = nr M /\ nc M' = nc M /\ row_equiv M M' /\ is_ref M' piv /\
+  forall i j', get M' i j' =
+    xorb (get M i j') ((r <=? i) && (i <? s) && get M i j && (j <=? j') && get M s j').
+Proof.
+  intros HM Href Hrs Hs j M'.
+  pose proof Href as (Hsort & Hlen & Hlead & Hzero).
+  assert (Hpz : forall j', j' < j -> get M s j' = false) by (intros j' Hj'; now apply (ref_get_before M piv)).
+  destruct (clear_above_spec M r s j HM ltac:(lia) Hrs Hpz) as (HM' & Hnr & Hnc & Heq & Hg).
+  fold M' in HM', Hnr, Hnc, Heq, Hg. splits; auto.
+  split; [assumption|]. split; [lia|]. split.
+  - intros i Hi. specialize (Hlead i Hi). apply lead_Some in Hlead as [H1 H2]. apply lead_Some.
+    destruct (Nat.lt_ge_cases i s) as [His|His].
+    + assert (Hp : nth i piv 0 < j) by (apply sorted_nth_lt; assumption).
+      split.
+      * change (get M' i (nth i piv 0) = true). rewrite Hg.
+        destruct (Nat.leb_spec j (nth i piv 0)); [lia|]. now rewrite andb_false_r, andb_false_l, xorb_false_r.
+      * intros j' Hj'. change (get M' i j' = false). rewrite Hg.
+        destruct (Nat.leb_spec j j'); [lia|]. rewrite andb_false_r, andb_false_l, xorb_false_r. now apply H2.
+    + split.
+      * change (get M' i (nth i piv 0) = true). rewrite Hg. destruct (Nat.ltb_spec i s); [lia|].
+        now rewrite andb_false_r, !andb_false_l, xorb_false_r.
+      * intros j' Hj'. change (get M' i j' = false). rewrite Hg. destruct (Nat.ltb_spec i s); [lia|].
+        rewrite andb_false_r, !andb_false_l, xorb_false_r. now apply H2.
+  - intros i Hi. apply (row_ext (nc M')); [now apply wf_row_bounded|apply bounded_0|].
+    intros j' _. change (get M' i j' = N.testbit 0 (N.of_nat j')). rewrite Hg, N.bits_0.
+    destruct (Nat.ltb_spec i s); [lia|]. rewrite andb_false_r, !andb_false_l, xorb_false_r.
+    now apply (ref_get_zero M piv).
+Qed.
+
+Section TopBlock.
+  Variables (M0 : mat) (piv : list nat) (r c mr kk : nat).
+  Hypothesis HM0 : wf M0.
+  Hypothesis Href0 : is_ref M0 piv.
+  Hypothesis Hge : forall i, r <= i < length piv -> c <= nth i piv 0.
+  Hypothesis Hpre : forall i i', r <= i < length piv -> mr <= i' < i -> get M0 i' (nth i piv 0) = false.
+
+  (** state of _mzd_gauss_submatrix_full inside the top reduction after l pivots of the block *)
+  Record ts (M : mat) (l : nat) : Prop := mk_ts {
+    ts_wf : wf M;
+    ts_nr : nr M = nr M0;
+    ts_nc : nc M = nc M0;
+    ts_eq : row_equiv M0 M;
+    ts_ref : is_ref M piv;
+    ts_frame : forall i j, i < r \/ r + l <= i -> get M i j = get M0 i j;
+    ts_len : r + l <= length piv;
+    ts_piv : forall t, t < l -> nth (r + t) piv 0 = c + t;
+    ts_bu : forall t u, t < u -> u < l -> get M (r + t) (c + u) = false;
+    ts_pre : forall i i', r + l <= i < length piv -> mr <= i' -> r <= i' < r + l ->
+             get M i' (nth i piv 0) = false
+  }.
+
+  Lemma ts_lb M l : ts M l -> r + l < length piv -> c + l <= nth (r + l) piv 0.
+  Proof.
+    intros T Hl. destruct l as [|l].
+    - rewrite Nat.add_0_r in *. apply Hge. pose proof (ts_len _ _ T). lia.
+    - pose proof (ts_piv _ _ T l ltac:(lia)) as Hp.
+      pose proof (sorted_nth_lt piv (r + l) (r + S l) (ref_sorted _ _ Href0) ltac:(lia) Hl). lia.
+  Qed.
+
+  Lemma gsf_cols_top n : forall M l, ts M l -> l + n = kk ->
+    forall M' kbar, gsf_cols n M r c (Nat.min (nr M0) (r + kk)) l = (M', kbar) ->
+    ts M' kbar /\ l <= kbar <= l + n /\
+    (kbar < l + n -> ~ (r + kbar < length piv /\ nth (r + kbar) piv 0 = c + kbar)).
+  Proof.
+    induction n as [|n IH]; intros M l T Hn M' kbar E; cbn [gsf_cols] in E.
+    - injection E as <- <-. split; [assumption|]. split; lia.
+    - pose proof T as [HM Hnr Hnc Heq Href Hframe Hlen Hpiv Hbu Hpr].
+      pose proof (ref_sorted _ _ Href0) as Hsort.
+      assert (Hlenp : length piv <= nr M) by apply Href.
+      assert (Hz : forall i u, r + l <= i -> u < l -> get M i (c + u) = false).
+      { intros i u Hi Hu. destruct (Nat.lt_ge_cases i (length piv)) as [Hip|Hip].
+        - apply (ref_get_before M piv); auto.
+          pose proof (ts_lb M l T ltac:(lia)).
+          pose proof (sorted_nth_le piv (r + l) i Hsort Hi Hip). lia.
+        - now apply (ref_get_zero M piv). }
+      assert (Hcol : forall i, r + l < i -> get M i (c + l) = false).
+      { intros i Hi. destruct (Nat.lt_ge_cases i (length piv)) as [Hip|Hip].
+        - apply (ref_get_before M piv); auto.
+          pose proof (ts_lb M l T ltac:(lia)).
+          pose proof (sorted_nth_lt piv (r + l) i Hsort Hi Hip). lia.
+        - now apply (ref_get_zero M piv). }
+      rewrite (gsf_scan_top M r c l (Nat.min (nr M0) (r + kk) - (r + l)) HM ltac:(lia) Hz Hcol) in E.
+      destruct (get M (r + l) (c + l)) eqn:Ep.
+      + assert (Hlp : r + l < length piv).
+        { destruct (Nat.lt_ge_cases (r + l) (length piv)); [assumption|].
+          rewrite (ref_get_zero M piv) in Ep by assumption. discriminate. }
+        assert (Hpl : nth (r + l) piv 0 = c + l).
+        { pose proof (ts_lb M l T Hlp). destruct (Nat.eq_dec (nth (r + l) piv 0) (c + l)); [assumption|].
+          rewrite (ref_get_before M piv) in Ep by (auto; lia). discriminate. }
+        destruct (Nat.ltb_spec 0 (Nat.min (nr M0) (r + kk) - (r + l))); [|lia]. cbn [andb] in E.
+        destruct (clear_above_ref M piv r (r + l) HM Href ltac:(lia) Hlp) as (HM1 & Hnr1 & Hnc1 & Heq1 & Href1 & Hg1).
+        rewrite Hpl in HM1, Hnr1, Hnc1, Heq1, Href1, Hg1.
+        set (M1 := clear_above M r (r + l) (c + l)) in *.
+        assert (T1 : ts M1 (S l)).
+        { constructor; try congruence.
+          - now apply (row_equiv_trans M0 M).
+          - intros i j Hi. rewrite Hg1.
+            destruct (Nat.leb_spec r i), (Nat.ltb_spec i (r + l)); cbn [andb]; try lia;
+              rewrite xorb_false_r; apply Hframe; lia.
+          - lia.
+          - intros t Ht. destruct (Nat.eq_dec t l) as [->|Hne]; [assumption|apply Hpiv; lia].
+          - intros t u Htu Hu. rewrite Hg1.
+            destruct (Nat.leb_spec r (r + t)); [|lia]. destruct (Nat.ltb_spec (r + t) (r + l)); [|lia].
+            cbn [andb]. destruct (Nat.eq_dec u l) as [->|Hne].
+            + rewrite Ep. destruct (Nat.leb_spec (c + l) (c + l)); [|lia].
+              rewrite !andb_true_r. apply xorb_nilpotent.
+            + destruct (Nat.leb_spec (c + l) (c + u)); [lia|].
+              rewrite andb_false_r, andb_false_l, xorb_false_r. apply Hbu; lia.
+          - intros i i' Hi Hmr Hi'. rewrite Hg1.
+            assert (Hs0 : get M (r + l) (nth i piv 0) = false).
+            { rewrite Hframe by lia. apply Hpre; lia. }
+            rewrite Hs0, andb_false_r, xorb_false_r.
+            destruct (Nat.eq_dec i' (r + l)) as [->|Hne]; [assumption|]. apply Hpr; lia. }
+        destruct (IH M1 (S l) T1 ltac:(lia) M' kbar E) as (T' & Hk & Hstop).
+        split; [assumption|]. split; [lia|]. intros Hlt. apply Hstop. lia.
+      + rewrite andb_false_r in E. injection E as <- <-. split; [assumption|]. split; [lia|].
+        intros _ [H1 H2]. rewrite <- H2 in Ep. rewrite (ref_get_pivot M piv) in Ep by assumption. discriminate.
+  Qed.
+End TopBlock.
+
+(** invariant of the loop of _mzd_top_echelonize_m4ri(A, k, r, c, max_r = mr): the matrix is a row
+    echelon form on the pivots [piv]; the pivot columns of the rows < r are clear above; the pivot
+    columns of the rows >= r are already clear in the rows >= mr above them (vacuous for
+    mzd_top_echelonize_m4ri, where mr = nrows; in the hybrid the rows >= mr come reduced from PLUQ) *)
+Record tinv (A M : mat) (piv : list nat) (r c mr : nat) : Prop := mk_tinv {
+  ti_wf : wf M;
+  ti_eq : row_equiv A M;
+  ti_ref : is_ref M piv;
+  ti_r : r <= length piv;
+  ti_lt : forall i, i < r -> nth i piv 0 < c;
+  ti_ge : forall i, r <= i < length piv -> c <= nth i piv 0;
+  ti_clr : forall i i', i < r -> i' < i -> get M i' (nth i piv 0) = false;
+  ti_pre : forall i i', r <= i < length piv -> mr <= i' < i -> get M i' (nth i piv 0) = false
+}.
+
+Lemma top_step A k M piv r c mr kk M1 kbar : tinv A M piv r c mr -> 1 <= kk -> c + kk <= nc M ->
+  gauss_submatrix_full M r c (Nat.min (nr M) (r + kk)) kk = (M1, kbar) ->
+  let M2 := if 0 <? kbar then process_rows M1 (tables k M1 r c kbar) 0 (Nat.min r mr) c kbar else M1 in
+  kbar <= kk /\ nc M2 = nc M /\
+  tinv A M2 piv (r + kbar) (if kbar =? kk then c + kbar else S (c + kbar)) mr.
+Proof.
+  intros [HM Heq Href Hr Hlt Hge Hclr Hpre] Hkk Hc E M2.
+  pose proof (ref_sorted _ _ Href) as Hsort.
+  assert (T0 : ts M piv r c mr M 0).
+  { constructor; auto; try lia; try apply row_equiv_refl; intros; lia. }
+  unfold gauss_submatrix_full in E.
+  destruct (gsf_cols_top M piv r c mr kk Href Hge Hpre kk M 0 T0 eq_refl M1 kbar E) as (T1 & Hkb & Hstop).
+  cbn [Nat.add] in Hkb, Hstop.
+  pose proof T1 as [HM1 Hnr1 Hnc1 Heq1 Href1 Hframe1 Hlen1 Hpiv1 Hbu1 Hpr1].
+  assert (Hlenp : length piv <= nr M1) by apply Href1.
+  assert (Hzb1 : zero_below M1 r c).
+  { intros i j Hi Hj. destruct (Nat.lt_ge_cases i (length piv)) as [Hip|Hip].
+    - apply (ref_get_before M1 piv); auto. specialize (Hge i ltac:(lia)). lia.
+    - now apply (ref_get_zero M1 piv). }
+  assert (Hblk1 : blk_id M1 r c kbar).
+  { intros t u Ht Hu. destruct (Nat.eqb_spec t u) as [->|Hne].
+    - rewrite <- (Hpiv1 u Hu). apply (ref_get_pivot M1 piv); auto. lia.
+    - destruct (Nat.lt_ge_cases t u); [apply Hbu1; lia|].
+      apply (ref_get_before M1 piv); auto; [lia|]. rewrite Hpiv1 by assumption. lia. }
+  assert (H2 : wf M2 /\ nr M2 = nr M1 /\ nc M2 = nc M1 /\ row_equiv M1 M2 /\
+               forall i j, get M2 i j = xorb (get M1 i j)
+                 ((i <? Nat.min r mr) && xsum kbar (fun t => get M1 i (c + t) && get M1 (r + t) j))).
+  { unfold M2. destruct (Nat.ltb_spec 0 kbar) as [Hpos|Hz].
+    - destruct (process_rows_spec k M1 M1 r c kbar 0 (Nat.min r mr) HM1 HM1 eq_refl eq_refl Hpos
+                  ltac:(lia) Hzb1 ltac:(reflexivity) ltac:(left; lia)) as (W1 & W2 & W3 & W4 & W5).
+      splits; auto.
+    - assert (kbar = 0) by lia. subst kbar. splits; auto; [apply row_equiv_refl|].
+      intros i j. cbn [xsum]. now rewrite andb_false_r, xorb_false_r. }
+  destruct H2 as (HM2 & Hnr2 & Hnc2 & Heq2 & Hg2).
+  assert (Hlow : forall i j, Nat.min r mr <= i \/ j < c -> get M2 i j = get M1 i j).
+  { intros i j [Hi|Hj]; rewrite Hg2.
+    - destruct (Nat.ltb_spec i (Nat.min r mr)); [lia|]. apply xorb_false_r.
+    - replace (xsum kbar _) with false; [now rewrite andb_false_r, xorb_false_r|].
+      symmetry. apply xsum_zero. intros t Ht. rewrite (Hzb1 (r + t) j) by lia. apply andb_false_r. }
+  split; [lia|]. split; [congruence|].
+  constructor.
+  - exact HM2.
+  - apply (row_equiv_trans A M); [assumption|]. apply (row_equiv_trans M M1); assumption.
+  - (* still a row echelon form on the same pivots *)
+    split; [assumption|]. split; [lia|]. split.
+    + intros i Hi. pose proof (ref_lead M1 piv i Href1 Hi) as Hl. apply lead_Some in Hl as [H1 H2].
+      apply lead_Some. destruct (Nat.lt_ge_cases i r) as [Hir|Hir].
+      * specialize (Hlt i Hir). split.
+        -- change (get M2 i (nth i piv 0) = true). rewrite Hlow by (right; lia). exact H1.
+        -- intros j' Hj'. change (get M2 i j' = false). rewrite Hlow by (right; lia). now apply H2.
+      * split.
+        -- change (get M2 i (nth i piv 0) = true). rewrite Hlow by (left; lia). exact H1.
+        -- intros j' Hj'. change (get M2 i j' = false). rewrite Hlow by (left; lia). now apply H2.
+    + intros i Hi. apply (row_ext (nc M2)); [now apply wf_row_bounded|apply bounded_0|].
+      intros j _. change (get M2 i j = N.testbit 0 (N.of_nat j)). rewrite Hlow by (left; lia).
+      rewrite N.bits_0. now apply (ref_get_zero M1 piv).
+  - lia.
+  - intros i Hi. destruct (Nat.lt_ge_cases i r) as [Hir|Hir].
+    + specialize (Hlt i Hir). destruct (kbar =? kk); lia.
+    + replace i with (r + (i - r)) by lia. rewrite Hpiv1 by lia. destruct (kbar =? kk); lia.
+  - intros i Hi.
+    pose proof (ts_lb M piv r c mr kk Href Hge Hpre M1 kbar T1 ltac:(lia)) as Hlb.
+    pose proof (sorted_nth_le piv (r + kbar) i Hsort ltac:(lia) ltac:(lia)) as Hle.
+    destruct (Nat.eqb_spec kbar kk) as [Ek|Ek]; [lia|].
+    assert (nth (r + kbar) piv 0 <> c + kbar) by (intros Heq'; apply Hstop; [lia|split; [lia|assumption]]).
+    lia.
+  - intros i i' Hi Hi'. destruct (Nat.lt_ge_cases i r) as [Hir|Hir].
+    + specialize (Hlt i Hir). rewrite Hlow by (right; lia). rewrite Hframe1 by (left; lia). now apply Hclr.
+    + assert (Ht : i - r < kbar) by lia.
+      replace i with (r + (i - r)) by lia. rewrite Hpiv1 by assumption.
+      destruct (Nat.lt_ge_cases i' (Nat.min r mr)) as [Hlo|Hlo].
+      * rewrite Hg2. destruct (Nat.ltb_spec i' (Nat.min r mr)); [|lia]. cbn [andb].
+        rewrite (xsum_blk_id M1 r c kbar (fun t => get M1 i' (c + t)) (i - r) Hblk1 Ht). apply xorb_nilpotent.
+      * rewrite Hlow by (left; lia). destruct (Nat.lt_ge_cases i' r) as [Hi'r|Hi'r].
+        -- rewrite Hframe1 by (left; lia). rewrite <- (Hpiv1 (i - r) Ht).
+           replace (r + (i - r)) with i by lia. apply Hpre; lia.
+        -- replace i' with (r + (i' - r)) by lia. apply Hbu1; lia.
+  - intros i i' Hi Hi'. rewrite Hlow by (left; lia).
+    destruct (Nat.lt_ge_cases i' r) as [Hi'r|Hi'r].
+    + rewrite Hframe1 by (left; lia). apply Hpre; lia.
+    + destruct (Nat.lt_ge_cases i' (r + kbar)) as [Hb|Hb].
+      * apply Hpr1; lia.
+      * rewrite Hframe1 by (right; lia). apply Hpre; lia.
+Qed.
+
+Lemma tinv_final A M piv r mr : tinv A M piv r (nc M) mr ->
+  r = length piv /\ wf M /\ row_equiv A M /\ is_rref M piv.
+Proof.
+  intros [HM Heq Href Hr Hlt Hge Hclr Hpre].
+  assert (Er : r = length piv).
+  { destruct (Nat.eq_dec r (length piv)); [assumption|]. exfalso.
+    specialize (Hge r ltac:(lia)).
+    pose proof (ref_piv_lt_nc M piv (nth r piv 0) HM Href ltac:(apply nth_In; lia)). lia. }
+  subst r. splits; auto. split; [assumption|]. intros i i' Hi Hne.
+  destruct (Nat.lt_ge_cases i' i) as [H1|H1]; [now apply Hclr|].
+  destruct (Nat.lt_ge_cases i' (length piv)) as [H2|H2].
+  - apply (ref_get_before M piv); auto. apply sorted_nth_lt; [apply Href|lia|assumption].
+  - now apply (ref_get_zero M piv).
+Qed.
+
+Lemma top_loop_spec A k piv mr : 1 <= k -> forall fuel M r c, tinv A M piv r c mr ->
+  c <= nc M -> nc M - c <= fuel ->
+  exists M', top_loop fuel k M r c mr = Some (length piv, M') /\
+             wf M' /\ row_equiv A M' /\ is_rref M' piv.
+Proof.
+  intros Hk. induction fuel as [|fuel IH]; intros M r c T Hc Hf.
+  - assert (c = nc M) by lia. subst c. cbn [top_loop]. rewrite Nat.leb_refl.
+    destruct (tinv_final A M piv r mr T) as (-> & H). exists M. now split.
+  - cbn [top_loop]. destruct (Nat.leb_spec (nc M) c) as [Hge|Hlt].
+    + assert (c = nc M) by lia. subst c. destruct (tinv_final A M piv r mr T) as (-> & H). exists M. now split.
+    + set (kk := Nat.min (6 * k) (nc M - c)).
+      destruct (gauss_submatrix_full M r c (Nat.min (nr M) (r + kk)) kk) as [M1 kbar] eqn:E.
+      destruct (top_step A k M piv r c mr kk M1 kbar T ltac:(lia) ltac:(lia) E) as (Hkb & Hnc2 & T2).
+      apply IH; [exact T2| |].
+      * rewrite Hnc2. destruct (Nat.eqb_spec kbar kk); lia.
+      * rewrite Hnc2. destruct (Nat.eqb_spec kbar kk); lia.
+Qed.
+
+(** mzd_top_echelonize_m4ri completes a row echelon form to THE reduced row echelon form *)
+Theorem top_echelonize_spec k M piv : 1 <= k -> is_ref M piv -> wf M -> top_model k M = Some (rref M).
+Proof.
+  intros Hk Href HM.
+  assert (T : tinv M M piv 0 0 (nr M)).
+  { constructor; auto; try lia; try apply row_equiv_refl.
+    intros i i' Hi Hi'. pose proof Href as (_ & Hlen & _). lia. }
+  destruct (top_loop_spec M k piv (nr M) Hk (nc M) M 0 0 T ltac:(lia) ltac:(lia)) as (M' & E & HM' & Heq & Hrr).
+  unfold top_model. rewrite E. cbn [option_map snd]. f_equal.
+  now destruct (rref_canonical M M' piv HM HM' Hrr Heq).
+Qed.
+
+(** * 9. the hand-over of the remaining window to PLUQ, reduced mode (brilliantrussian.c:686-710) *)
+Lemma sorted_app_lt l1 l2 : StronglySorted lt l1 -> StronglySorted lt l2 ->
+  (forall a b, In a l1 -> In b l2 -> a < b) -> StronglySorted lt (l1 ++ l2).
+Proof.
+  intros H1 H2 H. induction H1 as [|a l1 Hs IH Hf]; cbn [app]; [assumption|].
+  constructor.
+  - apply IH. intros x y Hx Hy. apply H; [now right|assumption].
+  - apply Forall_app. split; [assumption|]. apply Forall_forall. intros y Hy. apply H; [now left|assumption].
+Qed.
+
+Lemma sorted_map_add cw q : StronglySorted lt q -> StronglySorted lt (map (fun p => cw + p) q).
+Proof.
+  induction 1 as [|a l Hs IH Hf]; cbn [map]; constructor; [assumption|].
+  apply Forall_forall. intros y Hy. apply in_map_iff in Hy as [x [<- Hx]].
+  rewrite Forall_forall in Hf. specialize (Hf x Hx). lia.
+Qed.
+
+Lemma in_rowspace_shift W' M' r cw v :
+  (forall t, t < length (rows W') -> N.shiftl (row W' t) (N.of_nat cw) = row M' (r + t)) ->
+  in_rowspace v W' -> in_rowspace (N.shiftl v (N.of_nat cw)) M'.
+Proof.
+  intros H [x <-]. unfold vmul.
+  apply (mul_row_closed (fun v => in_rowspace (N.shiftl v (N.of_nat cw)) M')).
+  - rewrite N.shiftl_0_l. apply in_rowspace_0.
+  - intros a b Ha Hb. rewrite N.shiftl_lxor. now apply in_rowspace_lxor.
+  - intros v Hv. destruct (In_nth _ _ 0%N Hv) as [t [Ht <-]]. change (nth t (rows W') 0%N) with (row W' t).
+    rewrite H by assumption. apply in_rowspace_row.
+Qed.
+
+Section Switch.
+  Variable ech : bool -> mat -> nat * mat.
+  Variable ktop : nat.
+  Variable A : mat.
+  Hypothesis Hktop : 1 <= ktop.
+  (** the contract of mzd_echelonize_pluq(W, 1): rank and THE reduced row echelon form of the window
+      (EchelonPLUQProofs.echelon_pluq_full_spec) *)
+  Hypothesis ech_ok : forall W, wf W -> ech true W = gauss_delayed true 0 W.
+
+  Lemma switch_full_spec c M piv : ginv true A c M piv -> c < nc M -> length piv < nr M ->
+    exists M' piv', switch ech ktop true M (length piv) c = Some (length piv', M') /\ full_ok A M' piv'.
+  Proof.
+    intros [HM Heq Hlen Hs Hlt Hlead Hzero Hfull] Hc Hr. set (r := length piv) in *.
+    unfold switch. set (cw := radix * (c / radix)).
+    assert (Hcw : cw <= c) by (unfold cw, radix; lia).
+    set (W := msub M r cw (nr M - r) (nc M - cw)).
+    pose proof (wf_len M HM) as HlM.
+    assert (HW : wf W) by (apply wf_msub; lia).
+    rewrite (ech_ok W HW), gauss_true_pair.
+    destruct (rref_spec W HW) as (q & Hrk & HW' & HeqW & Hrr).
+    set (W' := rref W) in *. rewrite Hrk.
+    assert (HnrW' : nr W' = nr M - r) by (destruct HeqW as (E & _); rewrite <- E; reflexivity).
+    assert (HncW' : nc W' = nc M - cw) by (destruct HeqW as (_ & E & _); rewrite <- E; reflexivity).
+    set (M1 := mpaste M r cw W').
+    assert (Hg1 : forall i j, get M1 i j =
+              if (r <=? i) && (i <? nr M) && (cw <=? j) && (j <? nc M) then get W' (i - r) (j - cw) else get M i j).
+    { intros i j. unfold M1. rewrite get_mpaste by (auto; lia). rewrite HnrW', HncW'.
+      replace (r + (nr M - r)) with (nr M) by lia. replace (cw + (nc M - cw)) with (nc M) by lia. reflexivity. }
+    assert (HM1 : wf M1) by (apply wf_mpaste; auto; lia).
+    assert (Hnr1 : nr M1 = nr M) by reflexivity. assert (Hnc1 : nc M1 = nc M) by reflexivity.
+    assert (Hl1 : length (rows M1) = nr M) by now rewrite (wf_len M1 HM1).
+    (* rows of the window, embedded *)
+    assert (HgW : forall t j, get W t j = (t <? nr M - r) && (j <? nc M - cw) && get M (r + t) (cw + j)).
+    { intros t j. unfold W. rewrite get_msub by lia. reflexivity. }
+    assert (RW : forall t, t < nr M - r -> N.shiftl (row W t) (N.of_nat cw) = row M (r + t)).
+    { intros t Ht. apply bits_ext_nat. intros j. rewrite testbit_shiftl_nat.
+      change (N.testbit (row W t) (N.of_nat (j - cw))) with (get W t (j - cw)).
+      change (N.testbit (row M (r + t)) (N.of_nat j)) with (get M (r + t) j). rewrite HgW.
+      destruct (Nat.leb_spec cw j); cbn [andb].
+      - destruct (Nat.ltb_spec t (nr M - r)); [|lia]. cbn [andb].
+        replace (cw + (j - cw)) with j by lia.
+        destruct (Nat.ltb_spec (j - cw) (nc M - cw)); cbn [andb]; [reflexivity|].
+        symmetry. apply get_out_col; [assumption|lia].
+      - symmetry. apply Hzero; lia. }
+    assert (RW' : forall t, t < nr M - r -> N.shiftl (row W' t) (N.of_nat cw) = row M1 (r + t)).
+    { intros t Ht. apply bits_ext_nat. intros j. rewrite testbit_shiftl_nat.
+      change (N.testbit (row W' t) (N.of_nat (j - cw))) with (get W' t (j - cw)).
+      change (N.testbit (row M1 (r + t)) (N.of_nat j)) with (get M1 (r + t) j). rewrite Hg1.
+      replace (r + t - r) with t by lia.
+      destruct (Nat.leb_spec r (r + t)); [|lia]. destruct (Nat.ltb_spec (r + t) (nr M)); [|lia].
+      destruct (Nat.leb_spec cw j); cbn [andb].
+      - destruct (Nat.ltb_spec j (nc M)); [reflexivity|].
+        rewrite (get_out_col W') by (auto; lia). symmetry. apply get_out_col; [assumption|lia].
+      - symmetry. apply Hzero; lia. }
+    assert (Hsame : forall i, i < r -> row M1 i = row M i).
+    { intros i Hi. apply (row_ext (nc M)); [now apply (wf_row_bounded M1)|now apply wf_row_bounded|].
+      intros j _. change (get M1 i j = get M i j). rewrite Hg1. destruct (Nat.leb_spec r i); [lia|reflexivity]. }
+    assert (HlW : length (rows W) = nr M - r) by now rewrite (wf_len W HW).
+    assert (HlW' : length (rows W') = nr M - r) by now rewrite (wf_len W' HW').
+    assert (Heq1 : row_equiv M M1).
+    { destruct HeqW as (_ & _ & I1 & I2). split; [reflexivity|]. split; [reflexivity|]. split.
+      - apply rs_incl_rows. intros i Hi. rewrite HlM in Hi. destruct (Nat.lt_ge_cases i r) as [Hir|Hir].
+        + rewrite <- Hsame by assumption. apply in_rowspace_row.
+        + replace i with (r + (i - r)) by lia. rewrite <- RW by lia.
+          apply (in_rowspace_shift W' M1 r cw); [intros t Ht; apply RW'; lia|apply rs_incl_row, I1].
+      - apply rs_incl_rows. intros i Hi. rewrite Hl1 in Hi. destruct (Nat.lt_ge_cases i r) as [Hir|Hir].
+        + rewrite Hsame by assumption. apply in_rowspace_row.
+        + replace i with (r + (i - r)) by lia. rewrite <- RW' by lia.
+          apply (in_rowspace_shift W M r cw); [intros t Ht; apply RW; lia|apply rs_incl_row, I2]. }
+    (* the pasted matrix is a row echelon form *)
+    pose proof Hrr as [HrefW' HclrW'].
+    pose proof HrefW' as (Hsq & Hlq & Hleadq & Hzq).
+    set (piv1 := piv ++ map (fun p => cw + p) q).
+    assert (Hlen1 : length piv1 = r + length q) by (unfold piv1; rewrite app_length, map_length; reflexivity).
+    assert (Hnth1 : forall i, r <= i -> i < r + length q -> nth i piv1 0 = cw + nth (i - r) q 0).
+    { intros i Hi1 Hi2. unfold piv1. rewrite app_nth2 by (fold r; lia). fold r.
+      rewrite (nth_indep _ 0 (cw + 0)) by (rewrite map_length; lia).
+      now rewrite (map_nth (fun p => cw + p)). }
+    assert (Hnth0 : forall i, i < r -> nth i piv1 0 = nth i piv 0).
+    { intros i Hi. unfold piv1. now apply app_nth1. }
+    (* the window vanishes before column c - cw, hence so do its pivots *)
+    assert (Hqge : forall t, t < length q -> c <= cw + nth t q 0).
+    { intros t Ht. destruct (Nat.le_gt_cases c (cw + nth t q 0)) as [|Hgt]; [assumption|]. exfalso.
+      pose proof (ref_get_pivot W' q t HrefW' Ht) as Hp.
+      destruct HeqW as (_ & _ & _ & I2). destruct (rs_incl_row W' W t I2) as [x Hx].
+      unfold get in Hp. rewrite <- Hx, testbit_vmul in Hp.
+      rewrite xsum_zero in Hp; [discriminate|]. intros t' Ht'. rewrite HgW.
+      rewrite (Hzero (r + t') (cw + nth t q 0)) by lia. now rewrite !andb_false_r. }
+    assert (Href1 : is_ref M1 piv1).
+    { split; [|split; [|split]].
+      - apply sorted_app_lt; [assumption|now apply sorted_map_add|].
+        intros a b Ha Hb. apply in_map_iff in Hb as [p [<- Hp]]. destruct (In_nth _ _ 0 Hp) as [t [Ht <-]].
+        specialize (Hlt a Ha). specialize (Hqge t Ht). lia.
+      - rewrite Hlen1, Hnr1. rewrite HnrW' in Hlq. lia.
+      - rewrite Hlen1. intros i Hi. destruct (Nat.lt_ge_cases i r) as [Hir|Hir].
+        + rewrite Hnth0, Hsame by assumption. now apply Hlead.
+        + rewrite Hnth1 by lia. replace i with (r + (i - r)) at 1 by lia.
+          rewrite HnrW' in Hlq. rewrite <- RW' by lia.
+          specialize (Hleadq (i - r) ltac:(lia)). apply lead_Some in Hleadq as [H1 H2].
+          apply lead_Some. split.
+          * rewrite testbit_shiftl_nat. destruct (Nat.leb_spec cw (cw + nth (i - r) q 0)); [|lia].
+            cbn [andb]. now replace (cw + nth (i - r) q 0 - cw) with (nth (i - r) q 0) by lia.
+          * intros j' Hj'. rewrite testbit_shiftl_nat. destruct (Nat.leb_spec cw j'); [|reflexivity].
+            cbn [andb]. apply H2. lia.
+      - rewrite Hlen1. intros i Hi. destruct (Nat.lt_ge_cases i (nr M)) as [Hin|Hin].
+        + replace i with (r + (i - r)) by lia. rewrite <- RW' by lia. rewrite Hzq by lia. apply N.shiftl_0_l.
+        + apply Span.row_overflow. lia. }
+    assert (T1 : tinv A M1 piv1 r c r).
+    { constructor.
+      - exact HM1.
+      - now apply (row_equiv_trans A M).
+      - exact Href1.
+      - lia.
+      - intros i Hi. rewrite Hnth0 by assumption. apply Hlt, nth_In. exact Hi.
+      - rewrite Hlen1. intros i Hi. rewrite Hnth1 by lia. apply Hqge. lia.
+      - intros i i' Hi Hi'. rewrite Hnth0 by assumption. unfold get. rewrite Hsame by lia.
+        apply (Hfull eq_refl); lia.
+      - rewrite Hlen1. intros i i' Hi Hi'. rewrite Hnth1 by lia. rewrite Hg1.
+        rewrite HnrW' in Hlq.
+        destruct (Nat.leb_spec r i'); [|lia]. destruct (Nat.ltb_spec i' (nr M)); [|lia].
+        destruct (Nat.leb_spec cw (cw + nth (i - r) q 0)); [|lia].
+        assert (Hpq : nth (i - r) q 0 < nc W').
+        { apply (ref_piv_lt_nc W' q); auto. apply nth_In. lia. }
+        destruct (Nat.ltb_spec (cw + nth (i - r) q 0) (nc M)); [|lia]. cbn [andb].
+        replace (cw + nth (i - r) q 0 - cw) with (nth (i - r) q 0) by lia.
+        apply HclrW'; lia. }
+    destruct (Nat.ltb_spec 0 r) as [Hrpos|Hr0]; cbn [andb].
+    - destruct (top_loop_spec A ktop piv1 r Hktop (nc M) M1 r c T1 ltac:(lia) ltac:(lia))
+        as (M2 & E & HM2 & Heq2 & Hrr2).
+      rewrite E. exists M2, piv1. rewrite Hlen1. split; [reflexivity|]. now split.
+    - exists M1, piv1. rewrite Hlen1. split; [reflexivity|].
+      split; [assumption|]. split; [now apply (row_equiv_trans A M)|].
+      split; [assumption|]. intros i i' Hi Hne.
+      destruct (Nat.lt_ge_cases i' i) as [H1|H1].
+      + apply (ti_pre _ _ _ _ _ _ T1); lia.
+      + destruct (Nat.lt_ge_cases i' (length piv1)) as [H2|H2].
+        * apply (ref_get_before M1 piv1); auto. apply sorted_nth_lt; [apply Href1|lia|assumption].
+        * now apply (ref_get_zero M1 piv1).
+  Qed.
+End Switch.
+
+(** * 10. MAIN THEOREM, reduced mode: for every table parameter k >= 1, every sequence of switching
+    decisions and every window echeloniser meeting its contract, _mzd_echelonize_m4ri(A, 1, ..)
+    returns exactly what the naive Gauss-Jordan model returns: (rank A, rref A) *)
+Theorem m4ri_full_spec ech k ktop oracle A : 1 <= k -> 1 <= ktop ->
+  (forall W, wf W -> ech true W = gauss_delayed true 0 W) -> wf A ->
+  m4ri_model ech k ktop oracle true A = Some (gauss_delayed true 0 A).
+Proof.
+  intros Hk Hkt Hech HA. unfold m4ri_model.
+  destruct (oracle 0 && (0 <? nc A) && (0 <? nr A)) eqn:Eo.
+  - apply andb_true_iff in Eo as [Eo E2]. apply andb_true_iff in Eo as [_ E1].
+    apply Nat.ltb_lt in E1, E2.
+    destruct (switch_full_spec ech ktop A Hkt Hech 0 A [] (ginv_init true A HA) E1 E2) as (M' & piv' & E & Hok).
+    cbn [length] in E. rewrite E. f_equal. now apply full_ok_result.
+  - destruct (m4ri_loop_full ech k ktop oracle A Hk
+                ltac:(intros it c M piv _; apply (switch_full_spec ech ktop A Hkt Hech))
+                (nc A) 1 0 A [] (ginv_init true A HA) ltac:(lia) ltac:(lia)) as (M' & piv' & E & Hok).
+    cbn [length] in E. rewrite E. f_equal. now apply full_ok_result.
+Qed.
+
+(** rank and reduced form separately *)
+Corollary m4ri_rref_spec ech k ktop oracle A : 1 <= k -> 1 <= ktop ->
+  (forall W, wf W -> ech true W = gauss_delayed true 0 W) -> wf A ->
+  m4ri_model ech k ktop oracle true A = Some (rank A, rref A).
+Proof. intros. rewrite <- gauss_true_pair. now apply m4ri_full_spec. Qed.
+
+(** * 11. Evaluation of the models against the naive model (a dozen structured inputs: rank 0, full
+    rank, pivot gaps, pivots on both sides of the 64-column border, dependent rows), k in {1,2,3,5},
+    BOTH modes, the top reduction, and switching oracles with the ideal window echeloniser *)
+Definition m4ri_examples : list mat := [
+  (mk 1 1 [0x1]%N);
+  (mk 3 5 [0xe; 0x8; 0xe]%N);
+  (mk 5 3 [0x0; 0x1; 0x1; 0x4; 0x0]%N);
+  (mk 6 6 [0x0; 0x0; 0x0; 0x0; 0x0; 0x0]%N);
+  (mk 8 8 [0x54; 0x1b; 0xd8; 0xa; 0x90; 0xc0; 0xae; 0x5b]%N);
+  (mk 10 20 [0x4800; 0x24808; 0x84150; 0x84800; 0x0; 0x24808; 0x35aac; 0x15aa4; 0x24808; 0x353fc]%N);
+  (mk 9 70 [0x3a916183a1584a4421; 0x33e77b58bf449634cb; 0x1a3069d3f4501ec639; 0x1f944181e2545a4631; 0x17c67308ea4cc2b6d3; 0x17172d7139041e808d; 0x2d3368d15d104682b8; 0x21547e7b9044cc344e; 0x21a108505508548218]%N);
+  (mk 12 66 [0x59fe7f211bdfcc80; 0x2df55feae0a253020; 0x242a4e70aa6fe41c0; 0x2ca3b7e5ae01603c0; 0x3e41f54244833c9a0; 0x1e33a80970f96dd00; 0x361f100e856ff4540; 0x67026572cf772ba0; 0xdef21cfa3fc69200; 0x2cb2317cc8ec9bfe0; 0xe3e564cbf5506e80; 0x30b82a806c1aca000]%N);
+  (mk 7 130 [0x100100049000450410000000000000000; 0x100000000000000000000000000000000; 0x24030242a220460530000000000000000; 0x100000000000000000000000000000000; 0x100049000450410000000000000000; 0x100000000000000000000000000000000; 0x0]%N);
+  (mk 16 16 [0x0; 0xe674; 0xa606; 0xb7e0; 0xb906; 0xb906; 0xa606; 0x31e6; 0xddd8; 0xa606; 0xe892; 0xddd8; 0xe2d8; 0x354a; 0xd792; 0x5f72]%N);
+  (mk 4 70 [0x0; 0x200000000000000000; 0x17e66725c313e16118; 0x200000000000000000]%N);
+  (mk 20 24 [0x55f80c; 0xd74715; 0x60fd4c; 0x55b410; 0x724d10; 0x22f05c; 0xfc1c; 0x91b410; 0xb50c0c; 0xe5b400; 0x304b55; 0xe1fd5c; 0x24f349; 0x83bd10; 0x740b45; 0x434645; 0xc5f000; 0x104a15; 0x36f840; 0x92fe59]%N)].
+
+Definition res_eqb (a b : option (nat * mat)) : bool :=
+  match a, b with Some (r, M), Some (r', M') => (r =? r') && mequal M M' | _, _ => false end.
+
+Example m4ri_examples_wf : forallb wfb m4ri_examples = true.
+Proof. vm_compute. reflexivity. Qed.
+
+Example m4ri_examples_full :
+  forallb (fun A => forallb (fun k => res_eqb (m4ri_run k true A) (Some (gauss_delayed true 0 A))) [1; 2; 3; 5])
+          m4ri_examples = true.
+Proof. vm_compute. reflexivity. Qed.
+
+Example top_examples :
+  forallb (fun A => forallb (fun k => match top_run k (snd (gauss_delayed false 0 A)) with
+                                       | Some R => mequal R (rref A) | None => false end) [1; 2; 3; 5])
+          m4ri_examples = true.
+Proof. vm_compute. reflexivity. Qed.
+
+Example m4ri_examples_oracle :
+  forallb (fun A => forallb (fun n => forallb (fun full =>
+     res_eqb (m4ri_model (fun f W => gauss_delayed f 0 W) 1 2 (fun it => it =? n) full A)
+             (Some (gauss_delayed full 0 A))) [true; false]) [0; 1; 2; 4])
+          m4ri_examples = true.
+Proof. vm_compute. reflexivity. Qed.
+
+(** ** non-reduced mode: PARTIAL.
+    FULL STATEMENT (open; confirmed by the evaluation below and by the correspondence runs, not proved):
+      forall k, 1 <= k -> forall A, wf A -> m4ri_run k false A = Some (gauss_delayed false 0 A)
+    and, for an arbitrary oracle and any window echeloniser returning a row echelon form of its
+    argument: the result is (rank A, E) with E a row echelon form row equivalent to A.
+    Proof route (not carried out): the non-reduced block (gs_cols / gauss_submatrix_top / tables /
+    copy_back_rows) simulates [gauss_step false] pivot by pivot — the lazily cleared rows of
+    _mzd_gauss_submatrix coincide with the eagerly eliminated rows of the naive model once the l
+    pivot rows of the block are applied ("first row of the left-most column" is literally the scan
+    order of gs_scan and of mzd_find_pivot), or alternatively GaussRef.ref_canonical.
+    What is proved about the non-reduced route: nothing beyond the finite instances below; what is
+    proved for the reduced route is complete ([m4ri_full_spec]). *)
+Example m4ri_nonfull_partial :
+  forallb (fun A => forallb (fun k => res_eqb (m4ri_run k false A) (Some (gauss_delayed false 0 A))) [1; 2; 3; 5])
+          m4ri_examples = true.
+Proof. vm_compute. reflexivity. Qed.
+
+(** non-vacuity of the hypotheses of the main theorems *)
+Example m4ri_full_spec_example :
+  let A := nth 6 m4ri_examples (mzero 0 0) in
+  wf A /\ m4ri_model (fun f W => gauss_delayed f 0 W) 2 1 (fun it => it =? 1) true A = Some (rank A, rref A).
+Proof. split; [apply wfb_spec; vm_compute; reflexivity|vm_compute; reflexivity]. Qed.
+
+Example top_echelonize_spec_example :
+  let M := snd (gauss_delayed false 0 (nth 5 m4ri_examples (mzero 0 0))) in
+  wf M /\ (exists piv, is_ref M piv) /\ top_model 2 M = Some (rref M).
+Proof.
+  cbv zeta. set (A := nth 5 m4ri_examples (mzero 0 0)).
+  assert (HA : wf A) by (apply wfb_spec; vm_compute; reflexivity).
+  destruct (gauss_spec_ex false A HA) as (piv & _ & HM & _ & Href).
+  split; [assumption|]. split; [now exists piv|]. apply (top_echelonize_spec 2 _ piv); [lia|assumption|assumption].
+Qed.
